@@ -118,6 +118,7 @@ def ptype? : String → Option PType
 def behaviour? : String → Option Behaviour
   | "echo" => some .echo | "fail" => some .fail | "internal" => some .internal
   | "nilres" => some .nilres | "typednil" => some .typednil | "both" => some .both
+  | "waitctx" => some .waitctx
   | _ => none
 
 def nameTok? (t : String) : Option String :=
